@@ -33,6 +33,7 @@ def check(run: Run) -> None:
     run.rule("C20.R4", "whole dump reaches the digest: no slicing / lossy normalisation / lossy codec")
     run.rule("C20.R5", "text->bytes step is total on str (Unicode-complete encode), not a per-character ord into a bytearray")
     ctx = TermCtx(m, max_depth=3)
+    _COUNTS.clear()
     _check_function(run, ctx, fi, seen=set())
     _check_list_fields(run, m)
 
@@ -79,6 +80,9 @@ def _check_list_fields(run: Run, m) -> None:
     run.floor("C20.R6", n, 12, "list-typed constructor fields in the package")
 
 
+_COUNTS = {}
+
+
 def _check_function(run: Run, ctx: TermCtx, fi: FuncInfo, seen) -> None:
     if fi.qual in seen:
         return
@@ -89,7 +93,10 @@ def _check_function(run: Run, ctx: TermCtx, fi: FuncInfo, seen) -> None:
     param = fi.pos_params[0] if fi.pos_params else None
 
     # ---- R3: names read
-    local = fa.locals
+    local = set(fa.locals)
+    for n in own_nodes(fi):
+        if isinstance(n, ast.comprehension):
+            local |= {x.id for x in ast.walk(n.target) if isinstance(x, ast.Name)}
     n_names = 0
     for n in own_nodes(fi):
         if isinstance(n, ast.Name) and isinstance(n.ctx, ast.Load) and n.id not in local:
@@ -164,17 +171,18 @@ def _check_function(run: Run, ctx: TermCtx, fi: FuncInfo, seen) -> None:
             continue
         run.fail("C20.R3", fi, stmt_of(c), "call through a computed callee in hash computation")
 
-    if fi.name != "calc_ast_hash":
-        return
-    run.floor("C20.R1", len(dump_calls), 1, "ast.dump call")
-    run.floor("C20.R1", len(digest_calls), 1, "hashlib digest construction")
-
-    # ---- R4: no slicing / subscripting of text
+    _COUNTS["dump"] = _COUNTS.get("dump", 0) + len(dump_calls)
+    _COUNTS["digest"] = _COUNTS.get("digest", 0) + len(digest_calls)
+    # ---- R4 (every function on the way): no slicing of text, no data-dependent control flow
     for n in own_nodes(fi):
         if isinstance(n, ast.Subscript) and isinstance(n.ctx, ast.Load):
             run.fail("C20.R4", fi, stmt_of(n), "subscript/slice in hash computation: part of the dump may not reach the digest")
         if isinstance(n, (ast.If, ast.IfExp, ast.While, ast.Try)):
             run.fail("C20.R1", fi, n if isinstance(n, ast.stmt) else stmt_of(n), "conditional control flow in hash computation: the digest is not a function of the dump alone")
+    if fi.name != "calc_ast_hash":
+        return
+    run.floor("C20.R1", _COUNTS.get("dump", 0), 1, "ast.dump call")
+    run.floor("C20.R1", _COUNTS.get("digest", 0), 1, "hashlib digest construction")
 
     # ---- R1: returns
     rets = fa.returns()
@@ -201,43 +209,44 @@ def _is_digest_of(t):
 
 def _check_data(run: Run, fa, fi, ret_stmt, ret_node, data) -> None:
     """data must be the whole dump turned into bytes."""
+    root_param = ("param", fi.pos_params[0])
+
     def is_dump(x):
-        return x[0] == "app" and x[1] == ("global", "ast.dump")
+        return x[0] == "app" and x[1] == ("global", "ast.dump") and x[2] and x[2][0] == root_param
+
+    def per_char_ord(f):
+        """map(ord, dump) | (ord(c) for c in dump) | [ord(c) for c in dump]"""
+        if f[0] == "app" and f[1] == ("global", "builtins.map") and len(f[2]) == 2 and f[2][0] == ("global", "builtins.ord") and is_dump(f[2][1]):
+            return True
+        if f[0] == "comp" and f[1] in ("GeneratorExp", "ListComp") and len(f[3]) == 1 and not f[3][0][1] and is_dump(f[3][0][0]):
+            return f[2] == ("app", ("global", "builtins.ord"), (("elem", f[3][0][0]),), ())
+        return False
+
+    def is_encode(f):
+        return f[0] == "app" and f[1][0] == "attr" and f[1][2] == "encode" and is_dump(f[1][1])
 
     # dump.encode(...)
-    if data[0] == "app" and data[1][0] == "attr" and data[1][2] == "encode" and is_dump(data[1][1]):
+    if is_encode(data):
         run.ok("C20.R1", fi, "digest input is ast.dump(a).encode(..)", show(data))
         run.ok("C20.R5", fi, "text->bytes via str.encode (codec checked at the call)")
         return
-    # bytearray()/bytes() filled by .extend(map(ord, dump)) / bytes(map(ord, dump))
-    if data[0] == "app" and data[1][0] == "global" and data[1][1] in ("builtins.bytearray", "builtins.bytes"):
-        feeds = []
-        if data[2]:
-            feeds.append((ret_stmt, data[2][0]))
-        # the local variable handed to the digest constructor (found at the hashlib call itself)
-        name = None
-        for c in calls_in(fi):
-            if fa.cfg.has_node(c):
-                ct = strip_sites(fa.term_of(c.func))
-                if ct[0] == "global" and ct[1].startswith("hashlib.") and c.args and isinstance(c.args[0], ast.Name):
-                    name = c.args[0].id
-        if name:
-            for n in own_nodes(fi):
-                if isinstance(n, ast.Call) and isinstance(n.func, ast.Attribute) and isinstance(n.func.value, ast.Name) and n.func.value.id == name:
-                    if n.func.attr == "extend" and n.args:
-                        feeds.append((stmt_of(n), strip_sites(fa.term_of(n.args[0]))))
-                    elif n.func.attr not in ("extend",):
-                        run.fail("C20.R4", fi, stmt_of(n), f"byte buffer modified by .{n.func.attr}()")
-                if isinstance(n, ast.AugAssign) and isinstance(n.target, ast.Name) and n.target.id == name:
-                    feeds.append((n, strip_sites(fa.term_of(n.value))))
-        run.check(len(feeds) == 1, "C20.R1", fi, ret_stmt, "byte buffer is filled exactly once", f"byte buffer is filled {len(feeds)} times")
-        for st, f in feeds:
-            if f[0] == "app" and f[1] == ("global", "builtins.map") and len(f[2]) == 2 and f[2][0] == ("global", "builtins.ord") and is_dump(f[2][1]):
-                run.ok("C20.R1", fi, "digest input is map(ord, ast.dump(a))", show(f))
-                run.fail("C20.R5", fi, st, "per-character ord() into a byte buffer: any character above U+00FF raises ValueError, the hash is not total on queries", "ast.dump(a).encode('utf-8')", show(f), key="text -> bytes by map(ord, dump) into a bytearray")
-            elif f[0] == "app" and f[1][0] == "attr" and f[1][2] == "encode" and is_dump(f[1][1]):
+    # bytearray()/bytes() filled once: bytes(map(ord, dump)) / b = bytearray(); b.extend(<per-character ord of the dump>)
+    feeds = []
+    base = data
+    while base[0] == "concat":
+        feeds.insert(0, base[2])
+        base = base[1]
+    if base[0] == "app" and base[1][0] == "global" and base[1][1] in ("builtins.bytearray", "builtins.bytes"):
+        if base[2]:
+            feeds.insert(0, base[2][0])
+        run.check(len(feeds) == 1, "C20.R1", fi, ret_stmt, "byte buffer is filled exactly once", f"byte buffer is filled {len(feeds)} times: {show(data)[:160]}")
+        for f in feeds:
+            if per_char_ord(f):
+                run.ok("C20.R1", fi, "digest input is the per-character ord() of ast.dump(a)", show(f))
+                run.fail("C20.R5", fi, ret_stmt, "per-character ord() into a byte buffer: any character above U+00FF raises ValueError, the hash is not total on queries", "ast.dump(a).encode('utf-8')", show(f), key="text -> bytes by map(ord, dump) into a bytearray")
+            elif is_encode(f):
                 run.ok("C20.R1", fi, "digest input is ast.dump(a).encode(..)", show(f))
             else:
-                run.fail("C20.R1", fi, st, f"digest input is not the dump: {show(f)[:160]}")
+                run.fail("C20.R1", fi, ret_stmt, f"digest input is not the dump: {show(f)[:160]}")
         return
     run.fail("C20.R1", fi, ret_stmt, f"digest input is not derived from ast.dump alone: {show(data)[:160]}", "ast.dump(a) -> bytes")
